@@ -252,6 +252,13 @@ def run(facts, rep, ctx):
             if p.end != "ret":
                 continue        # loop-cut prefixes and panicking arms (`expect`) are not results
             dirty = [e for e in p.events if e["k"] == "write" and e["place"][0] == "field" and e["place"][2] == "dirty"]
+            adt_ = facts.adts.get(TA) or {}
+            dfield = [f_ for f_ in (adt_.get("variants") or [{}])[0].get("fields", []) if f_.get("name") == "dirty"]
+            if not dfield or dfield[0].get("ty") != "bool":
+                # the flag is no longer a bool called `dirty` (an enum state, a counter): how "modified" is recorded
+                # is not read by this rule
+                unk = unk or "the modified flag is not a bool field named dirty"
+                continue
             if not dirty or not all(e["val"] == ("const", True, "bool") for e in dirty):
                 bad = "a path returns without setting dirty = true"
             ups = []
